@@ -274,19 +274,45 @@ func (r *runner) writeCase(kind string, caseJSON []byte, err string) {
 func safeProp[C any](prop func(C, *Rec) error, c C, rec *Rec) (err error) {
 	defer func() {
 		if p := recover(); p != nil {
-			err = fmt.Errorf("panic: %v\n%s", p, trimStack(debug.Stack()))
+			// The message must be identical across re-runs of the same case (rapid's
+			// shrinker compares errors), so it carries function names only: no
+			// goroutine ids, argument values or addresses.
+			err = fmt.Errorf("panic: %v [at %s]", p, panicSite(debug.Stack()))
 		}
 	}()
 	return prop(c, rec)
 }
 
-func trimStack(b []byte) string {
-	s := string(b)
-	lines := strings.Split(s, "\n")
-	if len(lines) > 40 {
-		lines = lines[:40]
+// panicSite extracts the function names of the frames between the panic and the
+// vp runner from a debug.Stack dump.
+func panicSite(b []byte) string {
+	lines := strings.Split(string(b), "\n")
+	var fns []string
+	seenPanic := false
+	for _, l := range lines {
+		if strings.HasPrefix(l, "\t") || l == "" || strings.HasPrefix(l, "goroutine ") {
+			continue
+		}
+		if i := strings.LastIndexByte(l, '('); i > 0 {
+			l = l[:i]
+		}
+		if strings.HasPrefix(l, "panic") {
+			seenPanic = true
+			fns = fns[:0]
+			continue
+		}
+		if !seenPanic {
+			continue
+		}
+		if strings.Contains(l, "verif/vp.safeProp") {
+			break
+		}
+		fns = append(fns, l)
+		if len(fns) >= 8 {
+			break
+		}
 	}
-	return strings.Join(lines, "\n")
+	return strings.Join(fns, " < ")
 }
 
 // ReplayPath returns the replay file for (id, sub) or "".
@@ -345,11 +371,15 @@ func Run[C any](t *testing.T, s Spec[C]) {
 			panic("VP: case not JSON-serialisable: " + jerr.Error())
 		}
 		if s.Known != nil {
-			if k := s.Known(c); k != "" && r.active[k] {
-				r.mu.Lock()
-				r.st.ExcludedKnown[k]++
-				r.mu.Unlock()
-				return
+			// Known may name several findings separated by commas; the case is
+			// skipped if any of them is open.
+			for _, k := range strings.Split(s.Known(c), ",") {
+				if k != "" && r.active[k] {
+					r.mu.Lock()
+					r.st.ExcludedKnown[k]++
+					r.mu.Unlock()
+					return
+				}
 			}
 		}
 		if s.CrashFile {
